@@ -160,15 +160,15 @@ use crate::world::peer_cfg;
 pub const FAULTS: [TrackerOutcome; 4] = [TrackerOutcome::Refused, TrackerOutcome::Http500, TrackerOutcome::Garbage, TrackerOutcome::FailureReason];
 
 /// One fault word (indices into FAULTS) followed by a good announce.
-pub fn fault_case(dir: &std::path::PathBuf, word: &[usize], leave_after: Option<usize>, verbose: bool) -> (u64, Option<(&'static str, String)>) {
+pub fn fault_case(dir: &std::path::PathBuf, word: &[usize], leave_after: Option<usize>, final_order: &[usize], verbose: bool) -> (u64, Option<(&'static str, String)>) {
     let t = Torrent::new("t", 5, &[("f", 15)], true);
     // P (0) stays, Q (1) leaves first and triggers the re-announce, R (2) is only listed at the end,
     // S (3) is connected from the start and may leave in the middle of the fault sequence
     let cfgs = vec![peer_cfg(0, true), peer_cfg(1, true), peer_cfg(2, true), peer_cfg(3, true)];
     let mut script = vec![TrackerOutcome::Good(vec![0, 1, 3])];
     script.extend(word.iter().map(|f| FAULTS[*f].clone()));
-    script.push(TrackerOutcome::Good(vec![0, 1, 2]));
-    let mut w = FullWorld::new(&t, &cfgs, script, TrackerOutcome::Good(vec![0, 1, 2]), dir);
+    script.push(TrackerOutcome::Good(final_order.to_vec()));
+    let mut w = FullWorld::new(&t, &cfgs, script, TrackerOutcome::Good(final_order.to_vec()), dir);
     let mut steps = 1u64;
     let desc = |w: &FullWorld| format!("announces={} session={} P.connects={} Q.connects={} R.connects={}", w.announces.borrow().len(), w.session_key(), w.peers[0].connects, w.peers[1].connects, w.peers[2].connects);
     if verbose {
@@ -271,14 +271,20 @@ fn fault_words(max_n: usize, all_upto: usize) -> Vec<Vec<usize>> {
 fn fault_part(ctx: &Ctx) -> (u64, u64, Vec<Value>) {
     let words = fault_words(ctx.tier.pick(70, 100), ctx.tier.pick(3, 4));
     // every fault word alone, and with the extra peer leaving after each prefix of <= 3 failures
-    let mut cases: Vec<(Vec<usize>, Option<usize>)> = vec![];
+    // the good reply lists P (still connected), Q (left) and R (new): in every order for the short
+    // words (candidates are taken from the end of the list), in one order for the long ones
+    let orders: Vec<Vec<usize>> = vec![vec![0, 1, 2], vec![0, 2, 1], vec![1, 0, 2], vec![1, 2, 0], vec![2, 0, 1], vec![2, 1, 0], vec![1, 2, 0, 0], vec![0, 1, 2, 1]];
+    let mut cases: Vec<(Vec<usize>, Option<usize>, Vec<usize>)> = vec![];
     for w in &words {
-        cases.push((w.clone(), None));
-        for k in 0..w.len().min(3) {
-            cases.push((w.clone(), Some(k)));
+        let os: &[Vec<usize>] = if w.len() <= 2 { &orders } else { &orders[..1] };
+        for o in os {
+            cases.push((w.clone(), None, o.clone()));
+            for k in 0..w.len().min(3) {
+                cases.push((w.clone(), Some(k), o.clone()));
+            }
         }
         if w.len() > 66 {
-            cases.push((w.clone(), Some(w.len() - 66)));
+            cases.push((w.clone(), Some(w.len() - 66), orders[0].clone()));
         }
     }
     let res = core::par_map(
@@ -287,18 +293,18 @@ fn fault_part(ctx: &Ctx) -> (u64, u64, Vec<Value>) {
             core::set_quiet_panics(true);
             core::private_cwd("c19", &format!("w{}", w))
         },
-        |dir, _, (word, leave)| fault_case(dir, word, *leave, false),
+        |dir, _, (word, leave, order)| fault_case(dir, word, *leave, order, false),
     );
     let words_n = words.len();
     let _ = words_n;
     let mut steps = 0;
-    for ((word, leave), (n, v)) in cases.iter().zip(res.iter()) {
+    for ((word, leave, order), (n, v)) in cases.iter().zip(res.iter()) {
         steps += n;
         if let Some((class, why)) = v {
             if *class == "MACHINERY" {
                 ctx.machinery_error(why.clone());
             } else {
-                ctx.violation(class, format!("{}{}", why, match leave { Some(k) => format!(" [a second connection ended after failure {}]", k), None => String::new() }), json!({"kind": "faults", "word": word, "leave_after": leave}));
+                ctx.violation(class, format!("{}{}", why, match leave { Some(k) => format!(" [a second connection ended after failure {}]", k), None => String::new() }), json!({"kind": "faults", "word": word, "leave_after": leave, "final_order": order}));
             }
         }
     }
@@ -382,7 +388,8 @@ pub fn replay(_ctx: &Ctx, r: &Value) -> i32 {
         core::set_quiet_panics(true);
         println!("tracker outcomes: Good[P,Q], {:?}, Good[P,Q,R]", word.iter().map(|f| format!("{:?}", FAULTS[*f])).collect::<Vec<_>>());
         let leave = r["leave_after"].as_u64().map(|x| x as usize);
-        return match fault_case(&dir, &word, leave, true).1 {
+        let order: Vec<usize> = r["final_order"].as_array().map(|a| a.iter().map(|x| x.as_u64().unwrap() as usize).collect()).unwrap_or_else(|| vec![0, 1, 2]);
+        return match fault_case(&dir, &word, leave, &order, true).1 {
             Some((class, why)) => {
                 println!("VIOLATION property=C19 replay=<this file>\n  class={} {}", class, why);
                 1
